@@ -188,7 +188,7 @@ func checkDry(rt *rapid.T, c *chains.Chain) {
 		if msg := chains.CheckNumbered(sqlN, posN); msg != "" {
 			fail("numbered dialect: %s", msg)
 		}
-		if k := chains.CountQ(sqlQ); k != posQ {
+		if k := chains.CountQ(sqlQ) - c.LiteralQ(); k != posQ {
 			fail("positional dialect: %d placeholders for %d positionally bound values", k, posQ)
 		}
 		if !chains.NamedMatch(sqlN, namesN) || !chains.NamedMatch(sqlQ, namesQ) {
@@ -376,7 +376,7 @@ func checkExec(rt *rapid.T, c *chains.Chain) {
 			args[i] = chains.NormArg(a.Name, a.Value)
 		}
 		pos, names := chains.Positional(args)
-		if n := chains.CountQ(ev.Text); n != pos {
+		if n := chains.CountQ(ev.Text) - c.LiteralQ(); n != pos {
 			fail("statement %d: %d placeholders for %d positional driver arguments", k+1, n, pos)
 		}
 		if !chains.NamedMatch(ev.Text, names) {
@@ -650,7 +650,7 @@ func TestC01Reuse(t *testing.T) {
 				for k, x := range stmts[i].Args {
 					args[k] = chains.Norm(x.Value)
 				}
-				if n := chains.CountQ(stmts[i].Text); n != len(args) {
+				if n := chains.CountQ(stmts[i].Text) - []*chains.Chain{pb, pa}[i].LiteralQ(); n != len(args) {
 					rt.Fatalf("C01 violated (reusable handle): %d placeholders for %d arguments in %s\n  case: %s", n, len(args), stmts[i].Text, desc)
 				}
 				check([]string{"B (nested)", "A (outer)"}[i], stmts[i].Text, args, want)
